@@ -315,7 +315,7 @@ def run(ctx: Ctx) -> None:
     ctx.assumptions = [
         "extended reference classes (generic classes from other modules, private / nested / aliased / snake_case-under-nc classes, unmapped builtins, a moved class used in its origin module) are open findings, drawn rarely in the quick tier",
     ]
-    failures = engine.search(ctx, MOD, shards=ctx.n(16, 96), examples=ctx.n(12, 50))
+    failures = engine.search(ctx, MOD, shards=ctx.n(16, 96), examples=ctx.n(20, 50))
     engine.report_failures(ctx, MOD, failures)
     engine.replay_known(ctx, MOD)
 
